@@ -11,7 +11,7 @@ import Duckling.Props.C15
                                    (absent or stale) is exactly as before — and the report carries the error class, the last ≤ 5
                                    trace entries and the captured prints;
   * `C19_sources_never_change`    reading a source path after the command gives what it gave before (unless it is the output path);
-  * `C19_config_meaning`          the global configuration denotes the same options after the command (an absent file is
+  * `C19_global_config_meaning` / `C19_project_config_meaning`          the global configuration denotes the same options after the command (an absent file is
                                    created with the defaults), and a rewritten project configuration denotes what it denoted;
   * `C19_new_creates_project`     `new` on a fresh valid name creates the default configuration and a main file; on an existing
                                    directory or an invalid name it changes nothing;
